@@ -1413,6 +1413,13 @@ class Interp:
         mode = ctx.choice(2, f"loop{lid}")      # 0: arbitrary iteration, 1: after the loop
         names = self.assigned_names(st.body) + self.assigned_names([ast.Expr(st.target)] if False else [])
         is_range = isinstance(it, tuple) and it and it[0] == 'range'
+        indexed = self.hooks.get(('indexed', type(it).__name__))
+        if indexed is not None and not is_range:
+            # an indexable symbolic sequence: iterate as range(0, n) with element elem_at(idx)
+            n_, elem_at = indexed(self, it)
+            env['$seq'] = (it, elem_at)
+            it = ('range', 0, n_)
+            is_range = True
         if is_range:
             env['$idx'] = to_z3(it[1])
         if spec and spec.get('init'):
@@ -1452,6 +1459,8 @@ class Interp:
         ev_mark = len(ctx.events)
 
         def body_cb(x):
+            if '$seq' in env and indexed is not None:
+                x = env['$seq'][1](x)
             self.assign(st.target, x, env)
             ctx.events.append(Event('iter-begin', lid=lid, elem=x, loops=list(ctx.loop_stack)))
             try:
